@@ -230,7 +230,10 @@ EndThrow == /\ Is("EndThrow") /\ call.active /\ Ev.obj = call.obj
 \* Fates outside the outcome alphabet of a placement call (C07): abort, sanitizer report, hang.
 BadFate == /\ (Is("Abort") \/ Is("Sanitizer") \/ Is("Timeout"))
            /\ fails' = {F(IF Ev.e = "Sanitizer" /\ Ev.kind = "tsan" THEN "C08"
-                          ELSE IF scen = "invalid" THEN "C19" ELSE IF scen = "proto" THEN "C10" ELSE "C07",
+                          ELSE IF scen \in {"invalid", "api"} THEN "C19" ELSE IF scen = "proto" THEN "C10"
+                          \* an execution of a scenario that observes one property and dies delivers none of what that property promises
+                          ELSE IF scen = "incr" THEN "C09" ELSE IF scen = "free" THEN "C15" ELSE IF scen = "expand" THEN "C18"
+                          ELSE IF scen = "export" THEN "C20" ELSE IF scen = "grid" THEN "C16" ELSE "C07",
                           <<Ev.e, IF "kind" \in DOMAIN Ev THEN Ev.kind ELSE "", Ev.stderr>>, FateSignature(Ev, base))}
            /\ call' = Idle /\ expect' = ""
            /\ l' = l + 1 /\ UNCHANGED <<run, scen, params, base, objs, hist>>
@@ -386,6 +389,18 @@ FreeEv == /\ Is("Free")
                        THEN {F("C15", <<"free segments", got, "expected", exp>>, "freespace")} ELSE {})
           /\ l' = l + 1 /\ UNCHANGED <<run, scen, params, base, objs, call, hist, expect>>
 
+\* C15: the rows a consumer of the free space works with (Circuit::computeRows, Legalizer::fromIspdCircuit,
+\* DetailedPlacement::fromIspdCircuit, which also treats movable cells of another height than the rows as obstacles)
+FreeUse == /\ Is("FreeUse")
+           /\ LET c == Ev.circ
+                  also == IF Ev.kind = "detailed" THEN { i \in Movable(c) : PH(c.cells[i]) # RowH(c) } ELSE {}
+                  exp == FreeOfCircuit(c, also)
+                  got == RowSet(Ev.rows) IN
+              fails' = (IF Ev.threw # "" THEN {F("C15", <<"a consumer of the free space rejected a legalized circuit", Ev.kind, Ev.threw>>, "freespace-" \o Ev.kind)}
+                        ELSE IF got # exp \/ Cardinality(got) # Len(Ev.rows)
+                        THEN {F("C15", <<"rows used by a consumer of the free space", Ev.kind, got, "expected", exp>>, "freespace-" \o Ev.kind)} ELSE {})
+           /\ l' = l + 1 /\ UNCHANGED <<run, scen, params, base, objs, call, hist, expect>>
+
 \* C08: entry / exit of one of the two parallel lower-bound solves (hook events).  Contract taken from GlobalLoop:
 \* at most the two solves of one step are in flight, both have ended before the next callback or the end of the call.
 SolveEv == /\ Is("Solve") /\ call.active /\ call.stage = "global"
@@ -412,7 +427,7 @@ ParamCheck == /\ Is("ParamCheck")
               /\ fails' = ParamCheckFails(Ev)
               /\ l' = l + 1 /\ UNCHANGED <<run, scen, params, base, objs, call, hist, expect>>
 
-Next == ApiEv \/ PassEv \/ PassThrow \/ RoundTrip \/ ExportEv \/ BindEv \/ ExpandEv \/ GridEv \/ SolveEv \/ Schedule \/ HarnessError \/ ExpectReject \/ ParamsCtor \/ ParamCheck \/ Rebase \/ FreeEv \/ Incr \/ Reset \/ Begin \/ Cb \/ CbThrow \/ EndReturn \/ EndThrow \/ BadFate \/ Setter
+Next == FreeUse \/ ApiEv \/ PassEv \/ PassThrow \/ RoundTrip \/ ExportEv \/ BindEv \/ ExpandEv \/ GridEv \/ SolveEv \/ Schedule \/ HarnessError \/ ExpectReject \/ ParamsCtor \/ ParamCheck \/ Rebase \/ FreeEv \/ Incr \/ Reset \/ Begin \/ Cb \/ CbThrow \/ EndReturn \/ EndThrow \/ BadFate \/ Setter
 Spec == Init /\ [][Next]_vars
 
 ---------------------------------------------------------------------------
